@@ -25,6 +25,7 @@ EXPLANATION = (
     "cross-module resolution call graph with visited-set threading (T7), guard dominance in exports_and_re_exports_inner "
     "(T5), who-may / argument provenance for NodeRefBox::unsafe_new and the method inventory of the additive-only maps (T3/T4)."
 )
+EXPLANATION += " " + 'Plus: overload flagging looks at the previous declaration, ambient-ness propagates as a disjunction, dependency lookups prefer types (T12).'
 NOT_DECIDED = "that declaration names equal symbol names, ranges lie inside the text, and export-set equality as data"
 ASSUMPTIONS = ["structural-descent recursions listed in STRUCTURAL are bounded by the size of the AST / path they descend"]
 
